@@ -39,6 +39,10 @@ warnings.simplefilter('ignore')
 with contextlib.redirect_stdout(io.StringIO()):
     from musicxml.xmlelement import xmlelement as XE
 DOC = ('XMLElement', 'XMLChildContainer', 'XSD')
+sys.path.insert(0, '@CORR@')
+with contextlib.redirect_stdout(io.StringIO()):
+    import impl_runner as R
+    R.init()
 out = []
 for n in XE.__all__:
     c = getattr(XE, n)
@@ -109,6 +113,33 @@ for n in XE.__all__:
                     st = type(ex).__name__
                 if st not in ('ok', 'AttributeError', 'TypeError', 'ValueError') and not st.startswith(DOC):
                     odd['attribute %s=%r' % (an, v if not isinstance(v, type) else 'a class')] = st
+        # misuse of remove(): the same child twice, an element that was never attached, a child of another element.
+        # (an AttributeError is documented for unknown dot names only: here it is an internal error)
+        try:
+            e = c()
+            got = None
+            for k in sorted(getattr(e, 'possible_children_names', None) or [])[:8]:
+                try:
+                    ch = R.make(k); e.add_child(ch); got = (k, ch); break
+                except Exception:
+                    continue
+            if got:
+                k, ch = got
+                def remove_calls():
+                    yield 'remove(child) twice', lambda: (e.remove(ch), e.remove(ch))
+                    yield 'remove(never attached)', lambda: e.remove(R.make(k))
+                    o = c(); ch2 = R.make(k); o.add_child(ch2)
+                    yield 'remove(child of another element)', lambda: e.remove(ch2)
+                    yield 'replace_child(never attached, new)', lambda: e.replace_child(R.make(k), R.make(k))
+                for label, f in remove_calls():
+                    try:
+                        f(); st = 'ok'
+                    except Exception as ex:
+                        st = type(ex).__name__
+                    if st not in ('ok', 'TypeError', 'ValueError') and not st.startswith(DOC):
+                        odd[label] = st
+        except Exception:
+            pass
         rec['odd'] = odd
     rec['printed'] = bool(buf.getvalue())
     out.append(rec)
@@ -119,7 +150,7 @@ DOC_OK = ('ok', 'TypeError', 'ValueError', 'AttributeError')
 
 
 def class_sweep(rep):
-    r = subprocess.run([C.PY, '-W', 'ignore', '-c', CLASS_SWEEP], capture_output=True, text=True, env=C.impl_env(), timeout=600)
+    r = subprocess.run([C.PY, '-W', 'ignore', '-c', CLASS_SWEEP.replace('@CORR@', os.path.join(C.VERIF, 'corr'))], capture_output=True, text=True, env=C.impl_env(), timeout=600)
     if r.returncode != 0:
         raise RuntimeError('class sweep failed: ' + r.stderr[-1500:])
     recs = json.loads(r.stdout)
